@@ -1021,10 +1021,9 @@ namespace occa {
         }
       }
 
-      // Default to #if false with error
+      // The caller decides how to continue after the error
       if (exprError) {
-        pushStatus(ppStatus::ignoring |
-                   ppStatus::foundIf);
+        delete expr;
         return false;
       }
 
@@ -1078,6 +1077,9 @@ namespace occa {
 
       bool isTrue;
       if (!lineIsTrue(directive, isTrue)) {
+        // Default to #if false with error
+        pushStatus(ppStatus::ignoring |
+                   ppStatus::foundIf);
         return;
       }
 
@@ -1148,21 +1150,28 @@ namespace occa {
         return;
       }
 
-      // Make sure to test #elif expression is valid
+      // If we already finished, keep old state
+      // The condition is not evaluated, just like in C
+      if (status & ppStatus::finishedIf) {
+        skipToNewline();
+        return;
+      }
+
+      // The group being read ends here, its #elif condition is not evaluated either
+      if (status & ppStatus::reading) {
+        skipToNewline();
+        swapReadingStatus();
+        status |= ppStatus::finishedIf;
+        return;
+      }
+
+      // Only a candidate group evaluates its condition (an invalid one counts as false)
       bool isTrue;
       if (!lineIsTrue(directive, isTrue)) {
         return;
       }
 
-      // If we already finished, keep old state
-      if (status & ppStatus::finishedIf) {
-        return;
-      }
-
-      if (status & ppStatus::reading) {
-        swapReadingStatus();
-        status |= ppStatus::finishedIf;
-      } else if (isTrue) {
+      if (isTrue) {
         status = (ppStatus::foundIf |
                   ppStatus::reading);
       }
